@@ -395,7 +395,8 @@ def _expr_row(job):
         bfun = UFunc("Bfun")
         value, const = vfun, bfun
     else:
-        value, const = "Vexpr", "Bexpr"
+        # compound (top-level sums/differences): the templates must parenthesise what they splice in
+        value, const = "va + vb", "ba - bb"
     init = cls.find_method("__init__")
     kwargs = {"value": value}
     if "const" in [a.arg for a in init.node.args.kwonlyargs]:
@@ -442,7 +443,7 @@ def _expr_row(job):
             # value functions of these targets are called as f(adjacent_value, *args)
             pass
     else:
-        Vv, Bv = sp.Symbol("Vexpr"), sp.Symbol("Bexpr")
+        Vv, Bv = sp.Symbol("va") + sp.Symbol("vb"), sp.Symbol("ba") - sp.Symbol("bb")
     if target == "value":
         res = (g + c) / 2 - Vv
     elif target == "derivative":
@@ -554,7 +555,7 @@ def check(tier: str) -> Report:
     for cname, fam, is_normal in const_classes:
         for n_axes, axis in GEOMS:
             for upper in (False, True):
-                ranks = (1,) if is_normal else (0, 1)
+                ranks = (1, 2) if is_normal else (0, 1, 2)
                 for rank in ranks:
                     flips = (False, True) if fam == "periodic" else (False,)
                     for flip in flips:
@@ -620,6 +621,7 @@ def check(tier: str) -> Report:
                 f"{LOCAL}::{cname}::names::{alias}",
                 f"alias `{alias}` resolves to {cname}, whose extracted formula satisfies {sorted(got)} (normal={is_normal}); documented meaning is `{want}`",
             )
+    check_parsing(rep, ix)
     rep.assumptions += [
         "every axis has at least two cells (the code raises otherwise)",
         "values of user expressions/callables are uninterpreted symbols (their meaning is property C11)",
@@ -660,3 +662,236 @@ def _absorb(rep: Report, res: dict, tag: str, cname: str, route: str):
             rep.violation("C02.defining-equation", construct, f"{tag}: residual of {name} is `{r}` (must vanish identically); extracted store: {res.get('store')}")
     if len(rep.samples) < 14 and res.get("store"):
         rep.sample({"row": tag, "store": res["store"], "residuals": res.get("residuals")})
+
+
+# =============================================================================
+# parsing of boundary specifications (interpreted from source with recording stand-ins)
+# =============================================================================
+AXES_FILE = "pde/grids/boundaries/axes.py"
+AXIS_FILE = "pde/grids/boundaries/axis.py"
+
+
+def _parse_grid(periodic=(False, False)):
+    return Model(
+        "grid",
+        {
+            "axes": ["x", "y"],
+            "num_axes": 2,
+            "periodic": list(periodic),
+            "c": Model("coords", {"_axes_alt_repl": {}}),
+            "boundary_names": {"left": (0, False), "right": (0, True), "bottom": (1, False), "top": (1, True)},
+            "_mesh": None,
+        },
+    )
+
+
+def check_parsing(rep: Report, ix):
+    cfg = read_config_defaults(ix)
+    cfg.setdefault("boundaries.accept_lists", True)
+    logger = Model("logger", {k: (lambda *a, **kw: None) for k in ("info", "warning", "debug", "error")})
+    # ---------------------------------------------------------------- level 1: per-axis / per-side assignment
+    f = ix.func(AXES_FILE, "BoundariesList._parse_from_dict")
+    rep.saw("parsing functions", f.ref)
+    registry = set(ALIAS_FAMILY)
+    cases = [
+        ({"x": "A", "y": "B"}, [("A", "A"), ("B", "B")]),
+        ({"x-": "A", "x+": "B", "y": "C"}, [("A", "B"), ("C", "C")]),
+        ({"*": "W", "y+": "D"}, [("W", "W"), ("W", "D")]),
+        ({"*": "W", "left": "L"}, [("L", "W"), ("W", "W")]),
+        ({"x": "A", "x+": "B", "top": "T", "y": "C"}, [("A", "B"), ("C", "T")]),
+        ({"value": 3}, ["LOCAL", "LOCAL"]),
+        ({"type": "neumann", "value": 1}, ["LOCAL", "LOCAL"]),
+    ]
+    for spec, want in cases:
+        log = []
+        ov = std_overrides(ix, cfg)
+        ov["get_boundary_axis"] = lambda grid, axis, data, rank=0: log.append((axis, data)) or f"axis{axis}"
+        ov["_logger"] = logger
+        ov["BC_LOCAL_KEYS"] = ["type", "value", *sorted(registry)]
+        ov["warnings"] = Model("warnings", {"warn": lambda *a, **k: None})
+        it = Interp(ix, overrides=ov)
+        cls = ClassRefFor(ix, AXES_FILE, "BoundariesList")
+        try:
+            it.call(it.make_closure(f, it.module_env(f.module), bound_self=cls), (dict(spec),), {"grid": _parse_grid(), "rank": 0})
+        except (Unsupported, RaisedInCode) as e:
+            raise AnalysisError(f"{f.ref} on {spec}: {e}") from e
+        got = []
+        for axis, data in sorted(log, key=lambda x: x[0]):
+            got.append("LOCAL" if isinstance(data, dict) else tuple(data))
+        ok = got == want and [a for a, _ in sorted(log)] == [0, 1]
+        rep.oblige(f"parse:{spec}", ok, str(got))
+        if not ok:
+            rep.violation("C02.spec-parsing", f"{f.ref}::{sorted(spec)}", f"specification {spec} is distributed to the axes as {got}; documented (lower, upper) per axis: {want}")
+    # ---------------------------------------------------------------- string forms
+    g = ix.func(AXES_FILE, "BoundariesList.from_data")
+    rep.saw("parsing functions", g.ref)
+    for spec, periodic, want in (("auto_periodic_neumann", (True, False), ["periodic", "neumann"]), ("auto_periodic_dirichlet", (False, True), ["dirichlet", "periodic"]), ("value", (False, False), ["value", "value"])):
+        log = []
+        ov = std_overrides(ix, cfg)
+        ov["get_boundary_axis"] = lambda grid, axis, data, rank=0: log.append((axis, data)) or f"axis{axis}"
+        ov["BoundariesList"] = Model("BoundariesList-stub", {"__call__": lambda bcs: ("LIST", list(bcs))})
+        it = Interp(ix, overrides=ov)
+        orig_isinstance = it.builtins["isinstance"]
+
+        def _isinst(obj, c, orig=orig_isinstance):
+            from ..fx import ClassRef
+
+            cs = c if isinstance(c, tuple) else (c,)
+            keep = tuple(x for x in cs if not (isinstance(x, Model) and x._name.endswith("-stub")) and not (isinstance(x, ClassRef) and x.info.name.startswith("Boundaries")))
+            return orig(obj, keep) if keep else False
+
+        it.builtins["isinstance"] = _isinst
+        cls = ClassRefFor(ix, AXES_FILE, "BoundariesList")
+        cls_model = cls
+        try:
+            it.call(it.make_closure(g, it.module_env(g.module), bound_self=cls_model), (spec,), {"grid": _parse_grid(periodic), "rank": 0})
+        except (Unsupported, RaisedInCode) as e:
+            raise AnalysisError(f"{g.ref} on {spec!r}: {e}") from e
+        got = [d for a, d in sorted(log)]
+        ok = got == want
+        rep.oblige(f"parse:{spec!r}:periodic={periodic}", ok, str(got))
+        if not ok:
+            rep.violation("C02.spec-parsing", f"{g.ref}::{spec}", f"specification {spec!r} on a grid with periodic={periodic} gives {got}, documented {want}")
+    # ---------------------------------------------------------------- level 2: get_boundary_axis
+    h = ix.func(AXIS_FILE, "get_boundary_axis")
+    rep.saw("parsing functions", h.ref)
+    for data, periodic0, want in (
+        (("A", "A"), False, ("pair", "A")),
+        (("A", "B"), False, ("pair", ("A", "B"))),
+        ("periodic", True, ("periodic", False)),
+        ("anti-periodic", True, ("periodic", True)),
+        ("auto_periodic_neumann", True, ("periodic", False)),
+        ("auto_periodic_neumann", False, ("pair", "neumann")),
+        ("periodic", False, "PeriodicityError"),
+        ("value", True, "PeriodicityError"),
+    ):
+        ov = std_overrides(ix, cfg)
+        ov["BoundaryPeriodic"] = lambda grid, axis, rank=0, flip_sign=False: Model("bp", {"periodic": True, "kind": ("periodic", bool(flip_sign)), "__isinstance__": lambda c: False})
+        pair = Model("BoundaryPair", {"from_data": lambda grid, axis, data, rank=0: Model("pair", {"periodic": False, "kind": ("pair", data)})})
+        ov["BoundaryPair"] = pair
+        ov["BoundaryAxisBase"] = Opaque("BoundaryAxisBase")
+        it = Interp(ix, overrides=ov)
+        orig_isinstance = it.builtins["isinstance"]
+
+        def _isinst(obj, c, orig=orig_isinstance):
+            if isinstance(c, Opaque) and c.name == "BoundaryAxisBase":
+                return False
+            if isinstance(c, Opaque) and "Sequence" in c.name:
+                return isinstance(obj, (tuple, list))
+            return orig(obj, c)
+
+        it.builtins["isinstance"] = _isinst
+        grid = _parse_grid((periodic0, False))
+        try:
+            res = it.call(it.make_closure(h, it.module_env(h.module)), (grid, 0, data), {"rank": 0})
+            got = res._attrs["kind"] if isinstance(res, Model) else res
+        except RaisedInCode as e:
+            got = e.exc_name
+        except Unsupported as e:
+            raise AnalysisError(f"{h.ref} on {data!r}: {e}") from e
+        ok = got == want
+        rep.oblige(f"get_boundary_axis:{data!r}:grid-periodic={periodic0}", ok, str(got))
+        if not ok:
+            rep.violation("C02.spec-parsing", f"{h.ref}::{data}", f"get_boundary_axis({data!r}) on an axis with periodic={periodic0} gives {got}; documented {want}")
+    # ---------------------------------------------------------------- level 3: sides
+    p = ix.func(AXIS_FILE, "BoundaryPair.from_data")
+    rep.saw("parsing functions", p.ref)
+    for data, want in (
+        (("L", "H"), [(False, "L"), (True, "H")]),
+        ("S", [(False, "S"), (True, "S")]),
+        ({"low": "L", "high": "H"}, [(False, "L"), (True, "H")]),
+        ({"value": 1}, [(False, "DICT"), (True, "DICT")]),
+    ):
+        log = []
+        ov = std_overrides(ix, cfg)
+        bcbase = Model("BCBase", {"from_data": lambda grid, axis, upper=None, data=None, rank=0: log.append((upper, "DICT" if isinstance(data, dict) else data)) or ("bc", upper)})
+        ov["BCBase"] = bcbase
+        it = Interp(ix, overrides=ov)
+        orig_isinstance = it.builtins["isinstance"]
+
+        def _isinst(obj, c, orig=orig_isinstance):
+            cs = c if isinstance(c, tuple) else (c,)
+            if any(isinstance(x, Model) and x._name == "BCBase" for x in cs):
+                cs = tuple(x for x in cs if not (isinstance(x, Model) and x._name == "BCBase"))
+                return orig(obj, cs) if cs else False
+            return orig(obj, c)
+
+        it.builtins["isinstance"] = _isinst
+        made = []
+        cls = Model("BoundaryPair-cls", {"__call__": lambda low, high: made.append((low, high)) or "pair", "get_help": lambda: ""})
+        try:
+            it.call(it.make_closure(p, it.module_env(p.module), bound_self=cls), (_parse_grid(), 0, data), {"rank": 0})
+        except (Unsupported, RaisedInCode) as e:
+            raise AnalysisError(f"{p.ref} on {data!r}: {e}") from e
+        ok = log == want and made == [(("bc", False), ("bc", True))]
+        rep.oblige(f"BoundaryPair.from_data:{data!r}", ok, {"calls": str(log), "constructed": str(made)})
+        if not ok:
+            rep.violation("C02.spec-parsing", f"{p.ref}::{data}", f"BoundaryPair.from_data({data!r}) builds sides {log} -> {made}; documented: first/`low` entry for the lower side (upper=False), second/`high` for the upper side")
+    # ---------------------------------------------------------------- level 4: single condition
+    for meth, args, want in (
+        ("from_dict", {"data": {"type": "neumann", "value": 2}}, ("neumann", {"value": 2})),
+        ("from_dict", {"data": {"derivative": 5}}, ("derivative", {"value": 5})),
+        ("from_data", {"data": "dirichlet"}, ("dirichlet", {})),
+        ("from_data", {"data": {"value": 7}}, ("value", {"value": 7})),
+    ):
+        fn = ix.func(LOCAL, f"BCBase.{meth}")
+        rep.saw("parsing functions", fn.ref)
+        for upper in (False, True):
+            made = []
+
+            def ctor(name):
+                return lambda grid=None, axis=None, upper=None, rank=0, **kw: made.append((name, upper, axis, kw)) or Model("bc", {"periodic": False})
+
+            conditions = {n: ctor(n) for n in ALIAS_FAMILY}
+            base_cls = ix.cls(LOCAL, "BCBase")
+            cls = Model("BCBase-cls", {"_conditions": conditions, "get_help": lambda: ""}, cls=None)
+            # classmethods call each other through `cls`
+            it = Interp(ix, overrides=std_overrides(ix, cfg))
+            for m2 in ("from_str", "from_dict", "from_data"):
+                f2 = base_cls.find_method(m2)
+                cls._attrs[m2] = it.make_closure(f2, it.module_env(f2.module), bound_self=cls)
+            orig_isinstance = it.builtins["isinstance"]
+
+            def _isinst(obj, c, orig=orig_isinstance):
+                from ..fx import ClassRef
+
+                if isinstance(c, ClassRef) and c.info.name == "BCBase":
+                    return False
+                return orig(obj, c)
+
+            it.builtins["isinstance"] = _isinst
+            try:
+                it.call(cls._attrs[meth], (_parse_grid(), 1, upper), dict(args))
+            except (Unsupported, RaisedInCode) as e:
+                raise AnalysisError(f"{fn.ref} on {args}: {e}") from e
+            ok = made == [(want[0], upper, 1, want[1])]
+            rep.oblige(f"BCBase.{meth}:{args['data']!r}:{'upper' if upper else 'lower'}", ok, str(made))
+            if not ok:
+                rep.violation("C02.spec-parsing", f"{fn.ref}::{args['data']}", f"BCBase.{meth}({args['data']!r}, axis=1, upper={upper}) constructs {made}; documented: condition `{want[0]}` with {want[1]} on that axis and side")
+    # periodicity check in BCBase.from_data
+    fn = ix.func(LOCAL, "BCBase.from_data")
+    it = Interp(ix, overrides=std_overrides(ix, cfg))
+    base_cls = ix.cls(LOCAL, "BCBase")
+    cls = Model("BCBase-cls", {"_conditions": {"value": lambda **k: Model("bc", {"periodic": False})}, "get_help": lambda: ""})
+    for m2 in ("from_str", "from_dict", "from_data"):
+        f2 = base_cls.find_method(m2)
+        cls._attrs[m2] = it.make_closure(f2, it.module_env(f2.module), bound_self=cls)
+    orig_isinstance = it.builtins["isinstance"]
+    it.builtins["isinstance"] = lambda obj, c, orig=orig_isinstance: False if getattr(getattr(c, "info", None), "name", "") == "BCBase" else orig(obj, c)
+    raised = None
+    try:
+        it.call(cls._attrs["from_data"], (_parse_grid((True, False)), 0, False, "value"), {})
+    except RaisedInCode as e:
+        raised = e.exc_name
+    except Unsupported as e:
+        raise AnalysisError(f"{fn.ref}: {e}") from e
+    ok = raised == "PeriodicityError"
+    rep.oblige("BCBase.from_data rejects a non-periodic condition on a periodic axis", ok, raised)
+    if not ok:
+        rep.violation("C02.spec-parsing", f"{fn.ref}::periodicity-check", f"a non-periodic condition on a periodic axis is accepted (raised: {raised})")
+
+
+def ClassRefFor(ix, rel, name):
+    from ..fx import ClassRef
+
+    return ClassRef(ix.cls(rel, name))
